@@ -435,7 +435,7 @@ func modelPass1Chunk(trees []string, pairs [][2]string, outDir string, k int) ([
 
 // modelFinal: final_ok (hypothesis of C11_simplify_final_sound_partial) for (tree of the pattern, optional tree
 // of the first pass's text), evaluated by the kernel in parallel chunks.
-func modelFinal(ins [][2]string, outDir string) ([]int, error) {
+func modelFinal(ins [][3]string, outDir string) ([]int, error) {
 	const chunk = 250
 	nChunks := (len(ins) + chunk - 1) / chunk
 	res := make([][]int, nChunks)
@@ -452,14 +452,14 @@ func modelFinal(ins [][2]string, outDir string) ([]int, error) {
 			}
 			var b strings.Builder
 			b.WriteString("From GC Require Import Base Model_Regex Model_RegexSimplify Proofs_RegexSimplify Proofs_RegexWalk Proofs_RegexWalkS Model_RegexText Proofs_RegexText.\n")
-			b.WriteString("Definition ins : list (sx * option sx) := [\n")
+			b.WriteString("Definition ins : list (sx * option sx * option sx) := [\n")
 			for i, in := range ins[lo:hi] {
 				if i > 0 {
 					b.WriteString(";\n")
 				}
-				b.WriteString("(" + in[0] + ", " + in[1] + ")")
+				b.WriteString("(" + in[0] + ", " + in[1] + ", " + in[2] + ")")
 			}
-			b.WriteString("\n].\nDefinition FIN := Eval vm_compute in map (fun p => ((if final_ok (fst p) (snd p) then 1 else 0) + (if text_guards_ok (final_tree (fst p) (snd p)) then 2 else 0))%N) ins.\nPrint FIN.\n")
+			b.WriteString("\n].\nDefinition FIN := Eval vm_compute in map (fun p => let '(t1, t2, t3) := p in ((if final_ok t1 t2 then 1 else 0) + (if text_guards_ok (final_tree t1 t2) then 2 else 0) + (match t3 with Some t => if same_meaning t1 t then 4 else 0 | None => 0 end))%N) ins.\nPrint FIN.\n")
 			path := filepath.Join(outDir, fmt.Sprintf("round2_c11_%d.v", k))
 			common.WriteFile(path, b.String())
 			args := append([]string{"600", "coqc"}, coqArgs()...)
@@ -474,7 +474,7 @@ func modelFinal(ins [][2]string, outDir string) ([]int, error) {
 				return
 			}
 			for _, ch := range out[fi+5:] {
-				if ch >= '0' && ch <= '3' {
+				if ch >= '0' && ch <= '7' {
 					res[k] = append(res[k], int(ch-'0'))
 				}
 				if ch == ':' {
@@ -1241,7 +1241,7 @@ func Run(tier string, seed int64, outDir string) *common.Meta {
 			pairIdx = append(pairIdx, i)
 		}
 	}
-	pass1, certs, frags, err := modelPass1(round1, pairs, outDir)
+	pass1, _, frags, err := modelPass1(round1, nil, outDir)
 	if err != nil {
 		meta.TieBroken = append(meta.TieBroken, err.Error())
 		return meta
@@ -1251,14 +1251,7 @@ func Run(tier string, seed int64, outDir string) *common.Meta {
 		c1[i] = pass1[k]
 	}
 	certified := make([]bool, len(pats))
-	nCert := 0
-	for k, i := range pairIdx {
-		certified[i] = certs[k]
-		if certs[k] {
-			nCert++
-		}
-	}
-	meta.Distribution["rewrites_certified_equivalent_by_kernel"] = nCert
+	_, _ = pairs, pairIdx
 	inFrag := make([]bool, len(pats))
 	nFrag, nFragRw, nPlain, nPlainRw := 0, 0, 0, 0
 	for k, i := range round1Idx {
@@ -1288,14 +1281,18 @@ func Run(tier string, seed int64, outDir string) *common.Meta {
 	finalCov := make([]bool, len(pats))
 	textOK := make([]bool, len(pats))
 	{
-		var ins [][2]string
+		var ins [][3]string
 		var insIdx []int
 		for i := range pats {
 			if !parsed[i] || c1[i] == "" {
 				continue
 			}
 			t2of[i] = optTree(qp, c1[i])
-			ins = append(ins, [2]string{trees[i], t2of[i]})
+			t3 := "None"
+			if tree3[i] != "" {
+				t3 = "(Some " + tree3[i] + ")"
+			}
+			ins = append(ins, [3]string{trees[i], t2of[i], t3})
 			insIdx = append(insIdx, i)
 		}
 		fin, err := modelFinal(ins, outDir)
@@ -1303,10 +1300,14 @@ func Run(tier string, seed int64, outDir string) *common.Meta {
 			meta.TieBroken = append(meta.TieBroken, err.Error())
 			return meta
 		}
-		nFin, nText, nBoth := 0, 0, 0
+		nFin, nText, nBoth, nCert := 0, 0, 0, 0
 		for k, i := range insIdx {
 			finalCov[i] = fin[k]&1 != 0
 			textOK[i] = fin[k]&2 != 0
+			certified[i] = fin[k]&4 != 0
+			if certified[i] {
+				nCert++
+			}
 			if rewrites[i] == "" {
 				continue
 			}
@@ -1323,6 +1324,7 @@ func Run(tier string, seed int64, outDir string) *common.Meta {
 		meta.Distribution["rewrites_whose_final_text_tree_is_covered_by_final_theorem"] = nFin
 		meta.Distribution["rewrites_whose_final_tree_satisfies_the_text_roundtrip_guards"] = nText
 		meta.Distribution["rewrites_inside_both_theorem_domains"] = nBoth
+		meta.Distribution["rewrites_certified_equivalent_by_kernel"] = nCert
 	}
 
 	mark("coq_round1+round2")
